@@ -9,6 +9,10 @@ pub enum AttrV {
     Static(String),
     Dyn(usize),
     DynBool(usize),
+    /// like `Dyn` / `DynBool`, but the attribute value is a closure that RETURNS a signal (a derived
+    /// `MaybeDyn` that yields `MaybeDyn::Signal`), kept in step with signal `g` by an effect
+    DynVia(usize),
+    DynBoolVia(usize),
 }
 #[derive(Clone, Debug)]
 pub enum VD {
@@ -25,6 +29,10 @@ pub enum VD {
     NoHydrate(Vec<VD>),
 }
 
+pub fn dtext_str(v: u32) -> String {
+    if v % 4 == 0 { String::new() } else { v.to_string() }
+}
+
 pub fn leak(s: &str) -> &'static str {
     Box::leak(s.to_string().into_boxed_str())
 }
@@ -35,7 +43,7 @@ pub fn sx(v: &VD) -> String {
         VD::El(tag, attrs, cs) => format!(
             "(el {} (A{}) (C{}))",
             enc(tag),
-            attrs.iter().map(|(n, a)| format!(" ({} {})", enc(n), match a { AttrV::Static(s) => format!("(s {})", enc(s)), AttrV::Dyn(g) => format!("(d {g})"), AttrV::DynBool(g) => format!("(b {g})") })).collect::<String>(),
+            attrs.iter().map(|(n, a)| format!(" ({} {})", enc(n), match a { AttrV::Static(s) => format!("(s {})", enc(s)), AttrV::Dyn(g) => format!("(d {g})"), AttrV::DynBool(g) => format!("(b {g})"), AttrV::DynVia(g) => format!("(D {g})"), AttrV::DynBoolVia(g) => format!("(B {g})") })).collect::<String>(),
             l(cs)
         ),
         VD::Text(s) => format!("(text {})", enc(s)),
@@ -80,7 +88,7 @@ pub fn rd(s: &Sx) -> Option<VD> {
             let Sx::L(a) = &l[2] else { return None };
             let Sx::L(c) = &l[3] else { return None };
             let attrs = a[1..].iter().map(|p| { let Sx::L(p) = p else { return None }; let Sx::L(v) = &p[1] else { return None }; let Sx::A(k) = &v[0] else { return None };
-                Some((dec(&p[0])?, match k.as_str() { "s" => AttrV::Static(dec(&v[1])?), "d" => AttrV::Dyn(num(&v[1])?), _ => AttrV::DynBool(num(&v[1])?) })) }).collect::<Option<_>>()?;
+                Some((dec(&p[0])?, match k.as_str() { "s" => AttrV::Static(dec(&v[1])?), "d" => AttrV::Dyn(num(&v[1])?), "D" => AttrV::DynVia(num(&v[1])?), "B" => AttrV::DynBoolVia(num(&v[1])?), _ => AttrV::DynBool(num(&v[1])?) })) }).collect::<Option<_>>()?;
             VD::El(dec(&l[1])?, attrs, c[1..].iter().map(rd).collect::<Option<_>>()?)
         }
         "text" => VD::Text(dec(&l[1])?),
@@ -104,12 +112,26 @@ pub fn build(v: &VD, sigs: &[Signal<u32>]) -> View {
                     AttrV::Static(s) => e = e.attr(leak(n), s.clone()),
                     AttrV::Dyn(g) => { let s = sigs[*g]; e = e.attr(leak(n), move || { let v = s.get(); if v % 3 == 0 { None } else { Some(v.to_string()) } }); }
                     AttrV::DynBool(g) => { let s = sigs[*g]; e = e.bool_attr(leak(n), move || s.get() % 2 == 1); }
+                    AttrV::DynVia(g) => {
+                        let s = sigs[*g];
+                        let f = |v: u32| -> Option<std::borrow::Cow<'static, str>> { if v % 3 == 0 { None } else { Some(v.to_string().into()) } };
+                        let comp = create_signal(f(s.get_untracked()));
+                        create_effect(move || comp.set(f(s.get())));
+                        e = e.attr(leak(n), move || comp);
+                    }
+                    AttrV::DynBoolVia(g) => {
+                        let s = sigs[*g];
+                        let comp = create_signal(s.get_untracked() % 2 == 1);
+                        create_effect(move || comp.set(s.get() % 2 == 1));
+                        e = e.bool_attr(leak(n), move || comp);
+                    }
                 }
             }
             if cs.is_empty() { e.into() } else { e.children(cs.iter().map(|c| build(c, sigs)).collect::<Vec<View>>()).into() }
         }
         VD::Text(s) => s.clone().into(),
-        VD::DText(g) => { let s = sigs[*g]; View::from_dynamic(move || s.get().to_string()) }
+        // empty for multiples of four: empty dynamic texts are a corner of hydration
+        VD::DText(g) => { let s = sigs[*g]; View::from_dynamic(move || dtext_str(s.get())) }
         VD::DView(g, alts) => {
             let (s, alts, sigs) = (sigs[*g], alts.clone(), sigs.to_vec());
             View::from_dynamic(move || {
@@ -145,14 +167,14 @@ pub fn freeze(v: &VD, store: &[u32]) -> VD {
             for (n, x) in attrs {
                 match x {
                     AttrV::Static(s) => a.push((n.clone(), AttrV::Static(s.clone()))),
-                    AttrV::Dyn(g) => { let v = store[*g]; if v % 3 != 0 { a.push((n.clone(), AttrV::Static(v.to_string()))); } }
-                    AttrV::DynBool(g) => { if store[*g] % 2 == 1 { a.push((n.clone(), AttrV::Static(String::new()))); } }
+                    AttrV::Dyn(g) | AttrV::DynVia(g) => { let v = store[*g]; if v % 3 != 0 { a.push((n.clone(), AttrV::Static(v.to_string()))); } }
+                    AttrV::DynBool(g) | AttrV::DynBoolVia(g) => { if store[*g] % 2 == 1 { a.push((n.clone(), AttrV::Static(String::new()))); } }
                 }
             }
             VD::El(tag.clone(), a, fl(cs))
         }
         VD::Text(s) => VD::Text(s.clone()),
-        VD::DText(g) => VD::Text(store[*g].to_string()),
+        VD::DText(g) => VD::Text(dtext_str(store[*g])),
         VD::DView(g, alts) | VD::DView0(g, alts) => if alts.is_empty() { VD::Frag(vec![]) } else { VD::Frag(fl(&alts[store[*g] as usize % alts.len()])) },
         VD::Show(g, cs) => if store[*g] % 2 == 1 { VD::Frag(fl(cs)) } else { VD::Frag(vec![]) },
         VD::Frag(cs) | VD::NoHydrate(cs) => VD::Frag(fl(cs)),
@@ -200,7 +222,7 @@ pub fn gen(rng: &mut Rng, depth: usize, nsig: usize, budget: &mut usize) -> VD {
                 let n = *rng.pick(ATTRS);
                 if names.contains(&n) { continue; }
                 names.push(n);
-                attrs.push((n.to_string(), match rng.below(3) { 0 => AttrV::Static(["", "a", "b c"][rng.below(3)].to_string()), 1 => AttrV::Dyn(rng.below(nsig)), _ => AttrV::DynBool(rng.below(nsig)) }));
+                attrs.push((n.to_string(), match rng.below(5) { 0 => AttrV::Static(["", "a", "b c"][rng.below(3)].to_string()), 1 => AttrV::Dyn(rng.below(nsig)), 2 => AttrV::DynBool(rng.below(nsig)), 3 => AttrV::DynVia(rng.below(nsig)), _ => AttrV::DynBoolVia(rng.below(nsig)) }));
             }
             VD::El(rng.pick(TAGS).to_string(), attrs, (0..rng.below(4)).map(|_| gen(rng, depth - 1, nsig, budget)).collect())
         }
